@@ -263,6 +263,9 @@ structure Sock where
 
 def emit (s : Sock) (e : Event) : Sock := { s with out := s.out.push e }
 
+/-- `if (c) callback (...)` -/
+def emitIf (c : Bool) (s : Sock) (e : Event) : Sock := { s with out := if c then s.out.push e else s.out }
+
 /-- `pseudo_tcp_socket_init` (+ `conversation` construct property) -/
 def Sock.init (conv : UInt32) : Sock :=
   let mss := UInt32.ofNat MIN_PACKET - cPACKET_OVERHEAD
@@ -279,6 +282,9 @@ def Sock.init (conv : UInt32) : Sock :=
     last_acked_ts := 0, use_nagling := !(DEFAULT_NO_DELAY != 0), ack_delay := UInt32.ofNat DEFAULT_ACK_DELAY,
     support_wnd_scale := true, current_time := 0, support_fin_ack := true,
     wres := .success, out := #[] }
+
+/-- `now ? now : 1` (0 means "timer not armed") -/
+def armed (now : UInt32) : UInt32 := if now != 0 then now else 1
 
 /-- `get_current_time` -/
 def getCurrentTime (s : Sock) (clk : UInt32) : UInt32 :=
@@ -308,7 +314,7 @@ def setState (s : Sock) (new : TcpState) : R Sock :=
 /-- `set_state_closed` -/
 def setStateClosed (s : Sock) (err : Err) : R Sock := do
   let s ← setState s .closed
-  pure (if err != .none then emit s (.closed err) else s)
+  pure (emitIf (err != .none) s (.closed err))
 
 /-- `PACKET_MAXIMUMS[i]` -/
 def pktMax (i : Nat) : R UInt32 :=
@@ -434,9 +440,8 @@ def packet (s : Sock) (seq : UInt32) (flags : UInt8) (offset len now : UInt32) :
     let wres := s.wres
     if wres != .success && len != 0 then pure (wres, s)
     else
-      let s := { s with t_ack := 0 }
-      let s := if len > 0 then { s with lastsend := now } else s
-      pure (.success, { s with last_traffic := now, bOutgoing := true })
+      pure (.success, { s with t_ack := 0, lastsend := if len > 0 then now else s.lastsend,
+                               last_traffic := now, bOutgoing := true })
 
 /-- inner `while (TRUE)` of `transmit`: step down the MTU table.
     Returns `(EMSGSIZE?, sock, nTransmit)` -/
@@ -512,7 +517,7 @@ def transmit (s : Sock) (idx : Nat) (now : UInt32) : R (Err × Sock) :=
             else pure (s, seg) : R (Sock × SSeg))
           let seg := { seg with xmit := seg.xmit + 1 }
           let s := { s with slist := s.slist.set idx seg }
-          let s := if s.rto_base == 0 then { s with rto_base := armed now } else s
+          let s := { s with rto_base := if s.rto_base == 0 then armed now else s.rto_base }
           pure (.none, s)
 
 /-- the state navigation + `set_state_closed` at the end of `closedown` -/
@@ -565,11 +570,12 @@ def attemptSendLoop (now : UInt32) : Nat → Sock → SendFlags → R Sock
         match s.slist[idx]? with
         | none => fault (.oob "attempt_send: segment")
         | some sseg => do
-          let s := if sseg.len > nAvailable && sflags != .sfFin && sflags != .sfRst then
-              let subseg : SSeg := { seq := sseg.seq + nAvailable, len := sseg.len - nAvailable,
-                                     flags := sseg.flags, xmit := 0, unsent := true }
-              { s with slist := insertAfter (s.slist.set idx { sseg with len := nAvailable }) idx subseg }
-            else s
+          let subseg : SSeg := { seq := sseg.seq + nAvailable, len := sseg.len - nAvailable,
+                                 flags := sseg.flags, xmit := 0, unsent := true }
+          let slist := if sseg.len > nAvailable && sflags != .sfFin && sflags != .sfRst then
+              insertAfter (s.slist.set idx { sseg with len := nAvailable }) idx subseg
+            else s.slist
+          let s := { s with slist := slist }
           let (st, s) ← transmit s idx now
           if st != .none then
             -- closedown (self, transmit_status, CLOSEDOWN_REMOTE)
@@ -581,7 +587,7 @@ def attemptSendLoop (now : UInt32) : Nat → Sock → SendFlags → R Sock
 /-- `attempt_send` -/
 def attemptSend (s : Sock) (sflags : SendFlags) (clk : UInt32) : R Sock :=
   let now := getCurrentTime s clk
-  let s := if (time_diff now s.lastsend).toInt > (s.rx_rto.toNat : Int) then { s with cwnd := s.mss } else s
+  let s := { s with cwnd := if (time_diff now s.lastsend).toInt > (s.rx_rto.toNat : Int) then s.mss else s.cwnd }
   attemptSendLoop now (slistFuel s.slist) s sflags
 
 inductive ClosedownSource where
@@ -656,7 +662,7 @@ def parseOptions (s : Sock) (p : Array UInt8) (base len : Nat) : R Sock := do
            pure { s with swnd_scale := 0 }
          else pure s)
       else pure s : R Sock)
-    pure (if !hasFa then { s with support_fin_ack := false } else s)
+    pure { s with support_fin_ack := if !hasFa then false else s.support_fin_ack }
 
 /-! ### process -/
 
@@ -674,9 +680,6 @@ structure Segment where
 
 def lt? (x : Int32) : Bool := x != 0
 
-/-- `now ? now : 1` (0 means "timer not armed") -/
-def armed (now : UInt32) : UInt32 := if now != 0 then now else 1
-
 /-- RTT estimator update (RFC 6298), C integer types spelled out: `long rtt`, `guint32` fields -/
 def updateRtt (s : Sock) (rtt : Int) : Sock :=
   let s :=
@@ -688,6 +691,10 @@ def updateRtt (s : Sock) (rtt : Int) : Sock :=
       let srtt := UInt32.ofNat (((7 * s.rx_srtt).toNat + rtt.toNat) / 8)
       { s with rx_rttvar := rttvar, rx_srtt := srtt }
   { s with rx_rto := bound cMIN_RTO (UInt32.ofNat (s.rx_srtt.toNat + max 1 (4 * s.rx_rttvar).toNat)) cMAX_RTO }
+
+/-- the RTT sample of a valuable ACK: `if (seg->tsecr) { ...; priv->last_acked_ts = seg->tsecr; }` (`rtt >= 0` here) -/
+def rttSample (s : Sock) (tsecr : UInt32) (rtt : Int) : R Sock :=
+  pure (if tsecr != 0 then { updateRtt s rtt with last_acked_ts := tsecr } else s)
 
 /-- `seg->wnd << priv->swnd_scale` (`int` shift) -/
 def shiftWnd (wnd : UInt16) (scale : UInt8) : R UInt32 :=
@@ -727,8 +734,8 @@ def processData (s : Sock) (seg : Segment) (p : Array UInt8) (received_fin : Boo
   -- If we make room in the send queue, notify the user
   let kIdealRefillSize := (s.sbuf_len + s.rbuf_len) / 2
   let snd_buffered := s.sbuf.getBuffered
-  let s := if s.bWriteEnable && snd_buffered < kIdealRefillSize.toNat then
-      emit { s with bWriteEnable := false } .writable else s
+  let wr := s.bWriteEnable && snd_buffered < kIdealRefillSize.toNat
+  let s := emitIf wr { s with bWriteEnable := if wr then false else s.bWriteEnable } .writable
   let sflags : SendFlags :=
     if seg.seq != s.rcv_nxt then .sfDuplicateAck
     else if seg.len != 0 then (if s.ack_delay == 0 then .sfImmediateAck else .sfDelayedAck)
@@ -753,7 +760,7 @@ def processData (s : Sock) (seg : Segment) (p : Array UInt8) (received_fin : Boo
   let seg := if (seg.flags &&& cFLAG_CTL) == 0 && (s.state = .listen || s.state = .synSent) then { seg with len := 0 } else seg
   let (s, sflags, bNewData) ← (if seg.len > 0 then
       (if bIgnoreData then
-         pure (if seg.seq == s.rcv_nxt then { s with rcv_nxt := s.rcv_nxt + seg.len } else s, sflags, false)
+         pure ({ s with rcv_nxt := if seg.seq == s.rcv_nxt then s.rcv_nxt + seg.len else s.rcv_nxt }, sflags, false)
        else do
          let nOffset := seg.seq - s.rcv_nxt
          let (res, rb) ← s.rbuf.writeOffset p seg.dataOff seg.len.toNat nOffset.toNat
@@ -767,9 +774,9 @@ def processData (s : Sock) (seg : Segment) (p : Array UInt8) (received_fin : Boo
          else
            pure ({ s with rlist := rlistInsert { seq := seg.seq, len := seg.len } s.rlist }, sflags, false))
     else pure (s, sflags, false) : R (Sock × SendFlags × Bool))
-  let s := if received_fin then { s with rcv_nxt := s.rcv_nxt + 1 } else s
+  let s := { s with rcv_nxt := if received_fin then s.rcv_nxt + 1 else s.rcv_nxt }
   let s ← attemptSend s sflags clk
-  let s := if bNewData && s.bReadEnable then emit s .readable else s
+  let s := emitIf (bNewData && s.bReadEnable) s .readable
   pure (true, s)
 
 /-- FIN / FIN-ACK state machine part of `process` -/
@@ -778,7 +785,7 @@ def processFin (s : Sock) (seg : Segment) (p : Array UInt8) (bConnect is_fin_ack
   -- !?! A bit hacky
   let s ← (if s.state = .synReceived && !bConnect then setStateEstablished s else pure s : R Sock)
   if s.support_fin_ack then
-    let s := if (seg.flags &&& cFLAG_FIN) != 0 then { s with rcv_fin := seg.seq } else s
+    let s := { s with rcv_fin := if (seg.flags &&& cFLAG_FIN) != 0 then seg.seq else s.rcv_fin }
     if (seg.flags &&& cFLAG_FIN) != 0 && seg.len != 0 then pure (false, s)
     else
       let received_fin := s.rcv_nxt != 0 && seg.seq == s.rcv_nxt && s.rcv_nxt + seg.len == s.rcv_fin &&
@@ -801,8 +808,9 @@ def processFin (s : Sock) (seg : Segment) (p : Array UInt8) (bConnect is_fin_ack
 def processAck (s : Sock) (seg : Segment) (p : Array UInt8) (bConnect : Bool) (now clk : UInt32) :
     R (Bool × Sock) := do
   -- Update timestamp
-  let s := if lt? (ptcp_smaller_or_equal seg.seq s.ts_lastack) &&
-              lt? (ptcp_smaller s.ts_lastack (seg.seq + seg.len)) then { s with ts_recent := seg.tsval } else s
+  let ts_recent := if lt? (ptcp_smaller_or_equal seg.seq s.ts_lastack) &&
+              lt? (ptcp_smaller s.ts_lastack (seg.seq + seg.len)) then seg.tsval else s.ts_recent
+  let s := { s with ts_recent := ts_recent }
   -- FIN segments must not contain data: ignored entirely, before the acknowledgement number has any effect
   if s.support_fin_ack && (seg.flags &&& cFLAG_FIN) != 0 && seg.len != 0 then pure (false, s) else
   let is_valuable_ack := lt? (ptcp_larger seg.ack s.snd_una) && lt? (ptcp_smaller_or_equal seg.ack s.snd_nxt)
@@ -812,7 +820,7 @@ def processAck (s : Sock) (seg : Segment) (p : Array UInt8) (bConnect : Bool) (n
     let rtt : Int := (time_diff now seg.tsecr).toInt
     if seg.tsecr != 0 && rtt < 0 then pure (false, s)
     else do
-      let s := if seg.tsecr != 0 then { updateRtt s rtt with last_acked_ts := seg.tsecr } else s
+      let s ← rttSample s seg.tsecr rtt
       let wnd ← shiftWnd seg.wnd s.swnd_scale
       let s := { s with snd_wnd := wnd }
       let nAcked := seg.ack - s.snd_una
@@ -867,7 +875,7 @@ def processAck (s : Sock) (seg : Segment) (p : Array UInt8) (bConnect : Bool) (n
             processFin s seg p bConnect false clk
         else processFin s seg p bConnect false clk
       else if s.dup_acks > 3 then
-        processFin (if s.fast_recovery then { s with cwnd := s.cwnd + s.mss } else s) seg p bConnect false clk
+        processFin { s with cwnd := if s.fast_recovery then s.cwnd + s.mss else s.cwnd } seg p bConnect false clk
       else processFin s seg p bConnect false clk
     else processFin { s with dup_acks := 0 } seg p bConnect false clk
   else processFin s seg p bConnect false clk
@@ -950,51 +958,62 @@ def notifyMtu (s : Sock) (mtu : UInt16) : R Sock :=
   let s := { s with mtu_advise := mtu.toUInt32 }
   if s.state = .established then adjustMTU s else pure s
 
+/-- `notify_clock`, "Check if it's time to retransmit a segment"; the flag says that the function returned -/
+def clockRetransmit (s : Sock) (now clk : UInt32) : R (Bool × Sock) :=
+  if s.rto_base != 0 && (time_diff (s.rto_base + s.rx_rto) now).toInt ≤ 0 then
+    (if s.slist.length == 0 then fault (Fault.assert "notify_clock: g_assert_not_reached")
+     else do
+       let (st, s) ← transmit s 0 now
+       if st != .none then do
+         let s ← closedown s st .loc clk
+         pure (true, s)
+       else
+         let nInFlight := s.snd_nxt - s.snd_una
+         let rto_limit := if s.state.toNat < PSEUDO_TCP_ESTABLISHED then cDEF_RTO else cMAX_RTO
+         pure (false, { s with ssthresh := max (nInFlight / 2) (2 * s.mss), cwnd := s.mss,
+                               rx_rto := min rto_limit (s.rx_rto * 2), rto_base := armed now, recover := s.snd_nxt,
+                               dup_acks := if s.dup_acks ≥ 3 then 0 else s.dup_acks,
+                               fast_recovery := if s.dup_acks ≥ 3 then false else s.fast_recovery }))
+  else pure (false, s)
+
+/-- `notify_clock`, "Check if it's time to probe closed windows" -/
+def clockProbe (s : Sock) (now clk : UInt32) : R (Bool × Sock) :=
+  if s.snd_wnd == 0 && (time_diff (s.lastsend + s.rx_rto) now).toInt ≤ 0 then
+    (if (time_diff now s.lastrecv).toInt ≥ 15000 then do
+       let s ← closedown s .ECONNABORTED .loc clk
+       pure (true, s)
+     else do
+       let (_, s) ← packet s (s.snd_nxt - 1) 0 0 0 now
+       pure (false, { s with lastsend := now, rx_rto := min cMAX_RTO (s.rx_rto * 2) }))
+  else pure (false, s)
+
+/-- `notify_clock`, "Check if it's time to send delayed acks" -/
+def clockDelayedAck (s : Sock) (now : UInt32) : R Sock :=
+  if s.t_ack != 0 && (time_diff (s.t_ack + s.ack_delay) now).toInt ≤ 0 then do
+    let (_, s) ← packet s s.snd_nxt 0 0 0 now
+    pure s
+  else pure s
+
+/-- `notify_clock`, the TIME-WAIT and LAST-ACK blocks -/
+def clockFinStates (s : Sock) (clk : UInt32) : R Sock := do
+  let s ← (if s.support_fin_ack && s.state = .timeWait then setStateClosed s .none else pure s : R Sock)
+  if s.support_fin_ack && s.state = .lastAck then do
+    let s ← queueFinMessage s
+    attemptSend s .sfFin clk
+  else pure s
+
 /-- `pseudo_tcp_socket_notify_clock` -/
 def notifyClock (s : Sock) (clk : UInt32) : R Sock := do
   let now := getCurrentTime s clk
   if s.state = .closed then pure s
   else do
-    let s ← (if s.support_fin_ack && s.state = .timeWait then setStateClosed s .none else pure s : R Sock)
-    let s ← (if s.support_fin_ack && s.state = .lastAck then do
-        let s ← queueFinMessage s
-        attemptSend s .sfFin clk
-      else pure s : R Sock)
-    -- Check if it's time to retransmit a segment
-    let r ← (if s.rto_base != 0 && (time_diff (s.rto_base + s.rx_rto) now).toInt ≤ 0 then
-        (if s.slist.length == 0 then fault (Fault.assert "notify_clock: g_assert_not_reached")
-         else do
-           let (st, s) ← transmit s 0 now
-           if st != .none then do
-             let s ← closedown s st .loc clk
-             pure (true, s)
-           else
-             let nInFlight := s.snd_nxt - s.snd_una
-             let s := { s with ssthresh := max (nInFlight / 2) (2 * s.mss), cwnd := s.mss }
-             let rto_limit := if s.state.toNat < PSEUDO_TCP_ESTABLISHED then cDEF_RTO else cMAX_RTO
-             let s := { s with rx_rto := min rto_limit (s.rx_rto * 2), rto_base := armed now, recover := s.snd_nxt }
-             let s := if s.dup_acks ≥ 3 then { s with dup_acks := 0, fast_recovery := false } else s
-             pure (false, s))
-      else pure (false, s) : R (Bool × Sock))
-    let (done, s) := r
+    let s ← clockFinStates s clk
+    let (done, s) ← clockRetransmit s now clk
     if done then pure s
-    else
-      -- Check if it's time to probe closed windows
-      let r ← (if s.snd_wnd == 0 && (time_diff (s.lastsend + s.rx_rto) now).toInt ≤ 0 then
-          (if (time_diff now s.lastrecv).toInt ≥ 15000 then do
-             let s ← closedown s .ECONNABORTED .loc clk
-             pure (true, s)
-           else do
-             let (_, s) ← packet s (s.snd_nxt - 1) 0 0 0 now
-             let s := { s with lastsend := now }
-             pure (false, { s with rx_rto := min cMAX_RTO (s.rx_rto * 2) }))
-        else pure (false, s) : R (Bool × Sock))
-      let (done, s) := r
+    else do
+      let (done, s) ← clockProbe s now clk
       if done then pure s
-      else if s.t_ack != 0 && (time_diff (s.t_ack + s.ack_delay) now).toInt ≤ 0 then do
-        let (_, s) ← packet s s.snd_nxt 0 0 0 now
-        pure s
-      else pure s
+      else clockDelayedAck s now
 
 /-- `pseudo_tcp_socket_get_next_clock` (`timeout` is the in/out `guint64`) -/
 def getNextClock (s : Sock) (timeout : UInt64) (clk : UInt32) : R (Bool × UInt64 × Sock) := do
@@ -1037,7 +1056,7 @@ def getAvailableBytes (s : Sock) : Nat := s.rbuf.getBuffered
 /-- `pseudo_tcp_socket_get_available_send_space` -/
 def getAvailableSendSpace (s : Sock) : Nat × Sock :=
   let ret := if !hasSentFin s.state then s.sbuf.getWriteRemaining else 0
-  (ret, if ret == 0 then { s with bWriteEnable := true } else s)
+  (ret, { s with bWriteEnable := if ret == 0 then true else s.bWriteEnable })
 
 /-- `pseudo_tcp_socket_can_send` -/
 def canSend (s : Sock) : Bool × Sock :=
@@ -1077,15 +1096,15 @@ def send (s : Sock) (data : Array UInt8) (clk : UInt32) : R (Int × Sock) :=
       let (w, s) ← queue s data len cFLAG_NONE
       let written : Int := w.toInt32.toInt
       let s ← attemptSend s .sfNone clk
-      let s := if written > 0 && w < len then { s with bWriteEnable := true } else s
+      let s := { s with bWriteEnable := if written > 0 && w < len then true else s.bWriteEnable }
       pure (written, s)
 
 /-- `pseudo_tcp_socket_shutdown` -/
 def shutdown (s : Sock) (how : ShutdownHow) (clk : UInt32) : R Sock :=
   if !s.support_fin_ack then
-    pure (if s.shutdown = .none then { s with shutdown := .graceful } else s)
+    pure { s with shutdown := if s.shutdown = .none then .graceful else s.shutdown }
   else
-    let s := if how = .rd || how = .rdwr then { s with shutdown_reads := true } else s
+    let s := { s with shutdown_reads := if how = .rd || how = .rdwr then true else s.shutdown_reads }
     if how = .rd then pure s
     else
       match s.state with
